@@ -55,8 +55,14 @@ func init() {
 			{Plugin: "gate", Func: "hotline.(*Server).handleNewConnection"},
 			{Plugin: "sites", Func: "hotline.(*ClientConn).Authenticate", Kinds: siteKinds},
 			{Plugin: "sites", Func: "hotline.performHandshake", Kinds: siteKinds},
+			// who can log in is what the account table holds: its operations are part of the gate
+			{Plugin: "sites", Func: "mobius.(*YAMLAccountManager).Create", Kinds: []string{"site", "post", "guarded"}},
+			{Plugin: "sites", Func: "mobius.(*YAMLAccountManager).Update", Kinds: []string{"site", "post", "guarded"}},
+			{Plugin: "sites", Func: "mobius.(*YAMLAccountManager).Delete", Kinds: []string{"site", "post", "guarded"}},
+			{Plugin: "sites", Func: "mobius.(*YAMLAccountManager).Get", Kinds: []string{"site", "post", "guarded"}},
 		}, fnItems(nil, "hotline.(*handshake).Valid", "hotline.(*handshake).Write")...),
 		Decided: []string{
+			"the account table Authenticate consults is maintained exactly: Create adds, Update leaves exactly the new login (a renamed-away login is gone), Delete removes, all other entries unchanged (whole-map contracts of the YAML account manager)",
 			"handleNewConnection: every request dispatch, every outbox send, every registry / statistics effect (also the deferred ones) is reachable only after performHandshake returned nil and Authenticate returned true; the client is registered only after Authenticate; the ban lookup follows the handshake and precedes Authenticate",
 			"the login handed to Authenticate is the decoded login field, with the empty login replaced by guest and nothing else",
 			"Authenticate returns true iff the account manager knows the login and bcrypt accepts the password against that account's stored hash",
@@ -97,8 +103,10 @@ func init() {
 		}
 		c07 = append(c07, it)
 	}
+	c07 = append(c07, Item{Plugin: "sites", Func: "hotline.(*OSFileStore).Symlink", Kinds: []string{"site"}})
 	plans["C07"] = &Plan{Items: c07,
 		Decided: []string{
+			"OSFileStore.Symlink hands the OS exactly the target and link name it was given (an alias stores the in-root absolute path the handler proved, never a rewritten one)",
 			"ReadPath returns a path inside the file root for every path / name byte string (loop invariant: the accumulated sub-path is empty or a cleaned absolute path)",
 			"every path a file handler hands to the file store, to os.* or to NewFileWrapper is inside the requester's file root; the root registered with a file transfer is the requester's root; fileWrapper.Move / Delete / the fork writers touch only paths inside the root given their invariant; folder-upload item paths are cleaned before use; upload / download handlers on the transfer connection stay inside the root they are given",
 			"account files are created, renamed, written and removed inside the accounts directory only",
@@ -118,10 +126,13 @@ func init() {
 			{Plugin: "handler-contract", Func: "mobius.HandleUpdateUser", Kinds: []string{"site"}},
 			{Plugin: "passwords", Func: "mobius.HandleSetUser"},
 			{Plugin: "handler-contract", Func: "mobius.HandleSetUser", Kinds: []string{"site"}},
+			{Plugin: "sites", Func: "mobius.NewYAMLAccountManager", Kinds: []string{"site", "inv-step", "inv-init"}},
+			{Plugin: "yamltags", Opts: "hotline.Account"},
 			{Plugin: "passwords", Func: "mobius.HandleUpdateUser"},
 			{Func: "hotline.NewAccount"},
 		},
 		Decided: []string{
+			"NewYAMLAccountManager: every file the directory scan returns is read, decoded and stored in the table (each iteration either fails the whole load or reaches the table update)",
 			"HandleSetUser: the password field absent stores the hash of the empty password, the one-byte marker {0} computes no hash (hence stores nothing), any other value is hashed as given; the account is written back under its own login",
 			"YAMLAccountManager.Create / Update / Delete / Get are proved against the whole account table: Create adds exactly the account under its login, Update leaves exactly the new login holding the given name, password hash and privileges and removes a renamed-away login, Delete removes exactly the login, every other entry is unchanged; the marshalled bytes handed to the file writer are those of the account the table then holds (Login already renamed); success is reported only if the file operation succeeded; the table is only touched under the mutex",
 			"handlers: delete-user deletes the decoded login; batched update-user resolves the account of an entry from that entry's own fields; passwords are stored only as results of HashAndSalt",
@@ -130,7 +141,11 @@ func init() {
 		Undecided: []string{"YAML round trip on restart (library)", "the password cases of the batched editor (HandleUpdateUser) are covered by the hash-taint obligations only, not case by case"},
 	}
 	plans["C03"] = &Plan{
-		Items: append([]Item{{Plugin: "contain"}}, fnItems([]string{"guarded", "nopanic"},
+		Items: append([]Item{{Plugin: "contain"},
+			{Plugin: "handler-contract", Func: "mobius.HandleDisconnectUser", Kinds: []string{"site"}},
+			{Plugin: "handler-contract", Func: "mobius.HandleUpdateUser", Kinds: []string{"site"}},
+			{Plugin: "handler-contract", Func: "mobius.HandleDeleteUser", Kinds: []string{"site"}},
+		}, fnItems([]string{"guarded", "nopanic"},
 			"hotline.(*Server).rateLimiterFor",
 			"hotline.(*MemChatManager).New", "hotline.(*MemChatManager).Join", "hotline.(*MemChatManager).Leave", "hotline.(*MemChatManager).Members",
 			"hotline.(*MemChatManager).GetSubject", "hotline.(*MemChatManager).SetSubject",
@@ -140,6 +155,7 @@ func init() {
 			"hotline.(*MemClientMgr).Add", "hotline.(*MemClientMgr).Delete", "hotline.(*MemClientMgr).Get", "hotline.(*MemClientMgr).List",
 			"hotline.(*Field).Write", "hotline.FieldScanner", "hotline.transactionScanner")...),
 		Decided: []string{
+			"the delayed-disconnect goroutines started by HandleDisconnectUser / HandleUpdateUser / HandleDeleteUser (which run outside any recover) are handed a non-nil client; in HandleDisconnectUser this rests on the real Authorize dereferencing its receiver before any branch, which is read off the code on every run",
 			"both connection functions begin with the deferred recover (dontPanic) and have a recover exit: every panic raised while a connection's input is processed is recovered in that connection's goroutine",
 			"the connection / transfer counters are incremented immediately before the deferred decrement of the same counter; a transfer looked up successfully is deleted by a deferred function; a registered client is deregistered by a deferred Disconnect",
 			"every Lock of a mutex (in code that runs under a recover) is followed by the deferred Unlock before anything that can panic: a recovered panic never leaves a manager locked",
@@ -168,9 +184,11 @@ func init() {
 			{Plugin: "sites", Func: "mobius.(*ThreadedNewsYAML).PostArticle", Kinds: []string{"site", "post", "guarded"}},
 			{Plugin: "sites", Func: "mobius.(*ThreadedNewsYAML).DeleteArticle", Kinds: []string{"site", "post"}},
 			{Plugin: "sites", Func: "mobius.(*ThreadedNewsYAML).CreateGrouping", Kinds: []string{"site", "post"}},
+			{Plugin: "yamltags", Opts: "hotline.ThreadedNews hotline.NewsCategoryListData15 hotline.NewsArtData"},
 			{Plugin: "sites", Func: "hotline.(*NewsCategoryListData15).GetNewsArtListData", Kinds: []string{"site"}},
 		}, fnItems(nil, "hotline.(*NewsArtList).Read", "hotline.(*NewsArtListData).Read", "hotline.(*NewsCategoryListData15).Read")...),
 		Decided: []string{
+			"the YAML keys of the persisted news records (ThreadedNews, NewsCategoryListData15, NewsArtData) are the ones in spec/yaml_tags.spec: none renamed, dropped or made omitempty (an empty category written without its maps is reloaded with nil maps)",
 			"CreateGrouping never replaces an existing category or bundle: with the name taken at that path it fails and the item is untouched, with the name free the new item has the requested name and type; the tree is read and written under the mutex and saved only after an insertion",
 			"PostArticle: the previous-article link is at least every article ID collected from the category (sort.Ints contract) and the new ID is that maximum + 1 (it is what the old newest article's next link receives); the article is stored under the new ID with the requested parent; no other entry of the category's article map changes; the result is the result of writing the news file; the tree is only touched under the mutex",
 			"DeleteArticle removes exactly the addressed article (whole-map frame) and returns the result of writing the file",
@@ -185,8 +203,12 @@ func init() {
 			{Func: "mobius.(*Agreement).Read"}, {Func: "mobius.(*Agreement).Seek"},
 			{Plugin: "handler-contract", Func: "mobius.HandleTranOldPostNews", Kinds: []string{"site"}},
 			{Plugin: "handler-contract", Func: "mobius.HandleGetMsgs", Kinds: []string{"site"}},
+			{Plugin: "sites", Func: "mobius.(*FlatNews).Reload", Kinds: []string{"site", "post"}},
+			{Plugin: "sites", Func: "mobius.(*Agreement).Reload", Kinds: []string{"site", "post"}},
+			{Plugin: "sites", Func: "mobius.NewAgreement", Kinds: []string{"site", "post"}},
 		},
 		Decided: []string{
+			"loading / reloading the board and the agreement stores exactly the file's bytes with the two line-break replacements applied (byte-wise strings.ReplaceAll; no re-encoding), read from the store's own path under its mutex",
 			"FlatNews.Write: the board becomes post ++ old board, exactly that is written to the temporary file and renamed into place, all under the store's mutex (concurrent posts are serialised, none is lost), and len(p) is reported only after the rename succeeded",
 			"FlatNews.Read / Agreement.Read satisfy the cursor contract over the stored text and touch cursor and data under the mutex only",
 			"HandleTranOldPostNews replies and announces only after the board accepted the post; HandleGetMsgs returns exactly what io.ReadAll read from the board object itself (no wrapper, no truncation)",
@@ -214,6 +236,7 @@ func init() {
 			{Plugin: "handler-contract", Func: "mobius.HandleUploadFile", Kinds: []string{"site"}},
 		},
 		Decided: []string{
+			"UploadHandler never removes a file (the partial file of an interrupted upload stays for the resume)",
 			"HandleUploadFile: a transfer is registered only when the final name does not exist; for a resume request the offset reported (resume data field 203) is the size of <final name>.incomplete, taken from a successful Stat of exactly that path",
 			"UploadHandler: the partial file is opened with O_APPEND and without O_TRUNC; it is opened only when the final name does not exist; the rename to the final name is reached only on paths where receiveFile returned nil and the final name did not exist",
 			"receiveFile: returns nil only if exactly the declared data-fork size was written to the target (io.CopyN contract)",
@@ -262,16 +285,17 @@ func init() {
 			{Plugin: "sites", Func: "hotline.GetFileNameList", Kinds: []string{"site", "pre-at-call", "inv-init", "inv-step"}},
 			{Plugin: "sites", Func: "hotline.(*fileWrapper).TotalSize", Kinds: []string{"site"}},
 			{Plugin: "paths", Func: "mobius.HandleNewFolder", Kinds: []string{"site"}},
-			{Plugin: "paths", Func: "mobius.HandleSetFileInfo", Kinds: []string{"site"}},
+			{Plugin: "paths", Func: "mobius.HandleSetFileInfo", Kinds: []string{"site", "post"}},
 			{Func: "hotline.(*FileNameWithInfo).Read"}, {Func: "hotline.ignoreFile"}, {Func: "hotline.fileTypeFromFilename"},
 		},
 		Decided: []string{
+			"HandleSetFileInfo: a request that carries a comment field -- also an empty one, which clears the comment -- and is answered with success has set that comment on the info fork and written the fork back",
 			"fileWrapper.Move renames the data fork and then each side file (.incomplete, .rsrc_, .info_) from the wrapper's own path to the name derived from the wrapper's current name in the new directory, and reports success only after all four; Delete removes the same four paths; NewFileWrapper derives the three side-file paths from the addressed path",
 			"GetFileNameList: an entry is listed only if the ignore filter (called with the entry's own name and the configured list) passes it; the listed name is the entry's name with the partial-upload suffix removed, Mac-Roman encoded; the name length field equals the encoded length (cursor precondition at the drain site); folder item counts use the same ignore list; the list field is field 200 holding exactly the drained entry",
 			"TotalSize of a file without resource fork is its size on disk minus the wrapper's offset (mod 2^32)",
 			"HandleNewFolder creates the folder only when os.IsNotExist holds for the very path it creates; HandleSetFileInfo renames a file by moving the wrapper, carrying the base name of the resolved new path, within the file's own folder",
 		},
-		Undecided:   []string{"agreement of list / get-info / download reply on type and creator codes (three call chains over file_types tables)", "sequences of operations against a reference namespace (whole-history)", "that every non-ignored entry is listed (the loop's skip conditions are not under an invariant)", "make-alias, set-comment"},
+		Undecided:   []string{"agreement of list / get-info / download reply on type and creator codes (three call chains over file_types tables)", "sequences of operations against a reference namespace (whole-history)", "that every non-ignored entry is listed (the loop's skip conditions are not under an invariant)", "make-alias"},
 		Assumptions: []string{"a directory entry name is at most 255 bytes (NAME_MAX) and Mac-Roman encoding does not lengthen it (assumed contracts of os.DirEntry.Name and encoding.Encoder.String)"},
 	}
 	plans["C14"] = &Plan{
@@ -280,6 +304,7 @@ func init() {
 			{Plugin: "sites", Func: "hotline.sendBanMessage", Kinds: siteKinds},
 		}, fnItems(nil, "hotline.(*ClientConn).NewReply", "hotline.(*ClientConn).NewErrReply", "hotline.NewField", "hotline.(*Field).Read", "hotline.(*MemClientMgr).Add", "hotline.(*MemClientMgr).Get")...),
 		Decided: []string{
+			"sendTransaction sets no write deadline on the connection (a timed-out partial Write would leave half a frame on a connection that stays in use)",
 			"sendTransaction hands a transaction to the connection with at most one Write and never through a chunking copy (so concurrently sent transactions cannot interleave inside one another)",
 			"NewReply / NewErrReply: reply flag set, the request's ID and the requester's client ID copied, error code 1 on error replies, the error field well-formed",
 			"NewField / Field.Read: the length prefix equals the data length; registry routing: a client ID addresses the client registered under it and IDs of live clients are distinct (MemClientMgr.Add/Get)",
@@ -288,8 +313,11 @@ func init() {
 	}
 	plans["C13"] = &Plan{
 		Items: append(fnItems(nil, "hotline.(*UserFlags).IsSet", "hotline.(*MemClientMgr).Add", "hotline.(*MemClientMgr).Delete", "hotline.(*MemClientMgr).Get", "hotline.(*MemClientMgr).List"),
-			Item{Plugin: "handler-contract", Func: "mobius.HandleSetClientUserInfo", Kinds: []string{"site"}}),
+			Item{Plugin: "handler-contract", Func: "mobius.HandleSetClientUserInfo", Kinds: []string{"site"}},
+			Item{Plugin: "sites", Func: "hotline.(*ClientConn).NotifyOthers", Kinds: []string{"site", "inv-step", "inv-init"}}),
 		Decided: []string{
+			"NotifyOthers (user joined / changed / left notices): every entry of the client list whose ID differs from the sender's gets one copy, and no one else does (per-iteration reach obligation)",
+			"HandleSetClientUserInfo: with the options field present the automatic reply is cleared when its bit is clear and set to the request's text when it is set",
 			"MemClientMgr.Add: the ID assigned is not held by any registered client, for every value of the 32-bit counter (also across the 16-bit wrap); the new client is registered under it; every other entry is unchanged",
 			"Delete removes exactly the addressed entry; Get returns the client registered under the ID or nil",
 			"the registry map and the ID counter are only touched while the manager's mutex is held (ID computation and insert are one critical section)",
@@ -297,8 +325,10 @@ func init() {
 		Undecided: []string{"convergence of a client-side fold of notifications with the fetched list (whole-history, delivery order)", "refuse-messages / auto-reply clauses of HandleSendInstantMsg (not yet under contract)"},
 	}
 	plans["C16"] = &Plan{
-		Items: []Item{{Plugin: "accesstables"}, {Func: "hotline.(*AccessBitmap).IsSet"}, {Func: "hotline.(*AccessBitmap).Set"}, {Func: "hotline.(*ClientConn).Authorize"}},
+		Items: []Item{{Plugin: "accesstables"}, {Func: "hotline.(*AccessBitmap).IsSet"}, {Func: "hotline.(*AccessBitmap).Set"}, {Func: "hotline.(*ClientConn).Authorize"},
+			{Plugin: "sites", Func: "mobius.NewYAMLAccountManager", Kinds: []string{"site", "inv-step", "inv-init"}}},
 		Decided: []string{
+			"the account loader (including the migration of legacy-format files) never sets a privilege bit itself: what a file grants is what UnmarshalYAML decoded",
 			"IsSet(i) is bit i counted from the most significant bit of byte 0; Set(i) sets exactly that bit (all 64 indices, all byte values)",
 			"MarshalYAML: each of the 40 named fields equals the bit of its privilege number (spec/access_names.spec); no field without row, no row without field",
 			"UnmarshalYAML named form: bit j is set iff j is a defined privilege whose name maps to true; legacy form: byte i of the bitmap is element i of the array",
@@ -320,7 +350,11 @@ func init() {
 		Undecided: []string{"editing an EXISTING account's privileges (HandleSetUser, the update branch of HandleUpdateUser) is outside the property's statement (it speaks of created accounts) and is not constrained", "that the delayed Disconnect goroutine targets the client looked up (closure body not under contract)"},
 	}
 	plans["C01"] = &Plan{
-		Items: fnItems(nil,
+		Items: append([]Item{
+			// the file-list record is built in place: its length prefix must be the length of the name
+			// bytes that follow (precondition of the FileNameWithInfo cursor at the drain site)
+			{Plugin: "sites", Func: "hotline.GetFileNameList", Kinds: []string{"site", "pre-at-call", "inv-init", "inv-step"}},
+		}, fnItems(nil,
 			"hotline.(*Transaction).Read", "hotline.(*Transaction).Size", "hotline.(*Transaction).Write", "hotline.(*FilePath).Write",
 			"hotline.(*Field).Read", "hotline.NewField", "hotline.(*Field).Write", "hotline.FieldScanner",
 			"hotline.transactionScanner", "hotline.(*Field).DecodeInt", "hotline.EncodeString",
@@ -333,7 +367,7 @@ func init() {
 			"hotline.(*NewsArtList).Read", "hotline.(*NewsCategoryListData15).Read", "hotline.(*NewsArtListData).Read", "hotline.(*TrackerRegistration).Read",
 			"hotline.(*handshake).Write", "hotline.(*handshake).Valid", "hotline.(*transfer).Write",
 			"hotline.(*FilePathItem).Write", "hotline.fileItemScanner", "hotline.NewForkInfoList",
-		),
+		)...),
 		Decided: []string{
 			"encoder Read methods: every call returns the next bytes of the wire layout (cursor contract), for every buffer size",
 			"decoders: fields equal the corresponding sub-ranges of the input",
